@@ -72,6 +72,7 @@ def run(ctx):
         v = [r.choice(base) for _ in range(k)]
         for perm in set(itertools.permutations(v)):
             vectors.append(list(perm))
+    mlines, mobs = [], []         # the same vectors through the extracted Dsh/Exit.v (run_exit), compared with the observed status
     for v in vectors:
         for S in (True, False):
             hosts, exp = [], 0
@@ -94,6 +95,8 @@ def run(ctx):
                     exp = max(exp, code)
             if not S:
                 exp = 0
+            mvec = " ".join("%d:%d:%d" % (1 if kind in ("refuse", "timeout", "hangconn") else 0, code if kind == "ok" else 0, 0 if kind == "ok" else code) for kind, code in v)
+            mlines.append("exit %d 0 %s" % (1 if S else 0, mvec)); mobs.append(None)
             ru = eng.run(["-R", "sim"] + (["-S"] if S else []) + ["-t", "1", "-u", "1", "-f", str(r.range(1, len(v))), "-w", "h[0-%d]" % (len(v) - 1), "cmd"], hosts,
                          seed=r.next() % (1 << 31), ptick=0, env={"SCHED_MAXSTEP": "30000"}, timeout=10)
             stats["sched_runs"] += 1
@@ -102,6 +105,8 @@ def run(ctx):
             elif ru.exit != exp:
                 viol("input", {"vector": v, "S": S}, "exit %d" % exp, "exit %d" % ru.exit,
                      "outcomes %r %s -S: exit status %d, the property says %d" % (v, "with" if S else "without", ru.exit, exp))
+            else:
+                mobs[-1] = ru.exit
             if len(samples) < 2 and S and len(v) == 3:
                 samples.append({"outcomes": v, "exit": ru.exit})
     # ---- B2. -k (fail-fast): any failure makes the exit status non-zero; no failure, exit 0 ----
@@ -122,6 +127,8 @@ def run(ctx):
                 hosts.append(("h%d" % j, "o", "A" + b"partial\n".hex() + "/H", "-", code)); anyfail = True
             else:
                 hosts.append(("h%d" % j, "h", "-", "-", code)); anyfail = True
+        mvec = " ".join("%d:%d:%d" % (1 if kind in ("refuse", "timeout", "hangconn") else 0, code if kind == "ok" else 0, 0 if kind == "ok" else code) for kind, code in v)
+        mlines.append("exit 0 1 %s" % mvec); mobs.append(None)
         ru = eng.run(["-R", "sim", "-k", "-t", "1", "-u", "1", "-f", str(r.range(1, len(v))), "-w", "h[0-%d]" % (len(v) - 1), "cmd"], hosts,
                      seed=r.next() % (1 << 31), ptick=0, env={"SCHED_MAXSTEP": "30000"}, timeout=10)
         stats["sched_runs"] += 1
@@ -131,6 +138,15 @@ def run(ctx):
             viol("input", {"vector": v, "k": True}, "non-zero exit", "exit 0", "outcomes %r with -k: a command failed but the exit status is 0" % (v,))
         elif not anyfail and ru.exit != 0:
             viol("input", {"vector": v, "k": True}, "exit 0", "exit %d" % ru.exit, "outcomes %r with -k: nothing failed but the exit status is %d" % (v, ru.exit))
+        else:
+            mobs[-1] = ru.exit
+    # correspondence: the observed statuses = Dsh/Exit.v run_exit on the same vectors
+    mres = ctx.run_lines([ctx.build_runner("dsh", "dsh_model")], mlines, crash_tag="MODEL-CRASH")
+    for ml, ob, mr in zip(mlines, mobs, mres):
+        if ob is not None and mr != "exit=%d" % ob:
+            viol("no-failing-input-found", ml, mr, "exit=%d" % ob, "observed exit status and Dsh/Exit.v (run_exit) disagree on %s" % ml,
+                 corr="sched: exit status of the whole program = Exit.run_exit on the outcome vector")
+    stats["exit_model_comparisons"] = sum(1 for ob in mobs if ob is not None)
     # ---- C. out-of-band status through the exec transport: real children ----
     real = realeng.Real(ctx)
     execs = [("exit 0", 0), ("exit 1", 1), ("exit 42", 42), ("exit 255", 255), ("kill -9 $$", None), ("kill -TERM $$", None), ("kill -SEGV $$", None),
